@@ -32,6 +32,7 @@ RULE += (" The pipeline has a (nested) finalizer; a third of the cases builds al
 RULE += (" One history in three uses rules (and a probe) that carry one and the same value text under different modifier chains (re, re|expand, expand, contains|expand, base64, plain, ...).")
 RULE += (" One history in three switches between the two output formats of the backend (each with its own format pipeline) in convert / convert_rule calls and in the probe.")
 RULE += (" Histories also create backend instances with constructor options (without user pipeline / with one that has no variables); every query shows the backend options the combined pipeline knows, so options of one instance must not appear for another.")
+RULE += (" Every query also shows the identifiers the combined pipeline counts as applied to its rule (a nest post-processing item with a conditional inner item is part of the pipeline).")
 ASSUMPTIONS = [
     "results are compared as strings (same code, same configuration)",
     "the internal name of an added condition is random; it never appears in the compared output",
@@ -57,6 +58,10 @@ PIPELINE = {
 }
 # a second pipeline definition for further backends of the same class: other variable table
 PIPELINE["finalizers"] = [{"type": "nested", "finalizers": [{"type": "concat", "separator": " ;; "}]}]
+# a nest post-processing item whose inner item applies to windows rules only; the backend pipeline's template (see
+# _mk_class) prints which items the combined pipeline counts as applied to the current rule
+PIPELINE["postprocessing"] = [{"id": "pn", "type": "nest", "items": [{"id": "pin", "type": "embed", "prefix": "", "suffix": "",
+                                                                      "rule_conditions": [{"type": "logsource", "product": "windows"}]}]}]
 PIPELINE2 = dict(copy.deepcopy(PIPELINE), vars={"known": ["k9"], "other": ["o1", "o2"]})
 CFG = {"cs": False, "cs_shortcuts": False}
 
@@ -104,7 +109,7 @@ def _mk_class(cfg):
                                                             "field_name_conditions": [{"type": "include_fields", "fields": ["g", "mapped_g"]}]},
                                                            {"id": "bst", "type": "set_state", "key": "bstate", "val": "on"}],
                                        # what the combined pipeline knows about the backend's options: each instance its own
-                                       "postprocessing": [{"type": "template", "template": "{{ query }} ##opts={% for k, v in pipeline.vars|dictsort %}{% if k.startswith('backend_') %}{{ k }}={{ v }};{% endif %}{% endfor %}"}]})
+                                       "postprocessing": [{"type": "template", "template": "{{ query }} ##opts={% for k, v in pipeline.vars|dictsort %}{% if k.startswith('backend_') %}{{ k }}={{ v }};{% endif %}{% endfor %} ##applied={{ pipeline.applied_ids|sort|join(',') }}"}]})
     from vf.target.correlation import correlation_attrs
     return make_backend_class(cfg, {**correlation_attrs({}), "backend_processing_pipeline": bp,
                                     "output_format_processing_pipeline": defaultdict(ProcessingPipeline, alt=ProcessingPipeline.from_dict({"transformations": [
